@@ -21,7 +21,8 @@ Vg == V("Vg")  L == V("L")
 a == A("a")  kk == A("kk")
 Log(t) == C1("log", t)
 St(tag) == C(tag, <<X, Y, W, Z, V0>>)
-Peek(tag) == Not(Not(Conj(C2("bb_get", kk, Vg), Log(C1(tag, Vg)))))     \* observes the global without binding anything
+(* observes the global without binding anything; never fails *)
+Peek(tag) == Ite(Not(Not(Conj(C2("bb_get", kk, Vg), Log(C1(tag, Vg))))), True, Log(C1(tag, A("none"))))
 
 Goals == <<
   Eq(X, a),                                       \*  1 bind an older variable
@@ -44,7 +45,7 @@ Goals == <<
   C2("bb_b_put", kk, C1("h", W))                  \* 18 backtrackable value holding a variable
 >>
 NG == Len(Goals)
-Core == {1, 4, 5, 11, 13, 14, 15}
+Core == {1, 4, 5, 11, 13, 15}
 Core4 == {1, 4, 5, 11, 13, 15}
 
 Pres == <<
@@ -100,5 +101,5 @@ Inv == MachineOk(m) /\ CollectorsOk(m) /\ (m.phase # "gen" => ExtOk(m))
 NProg(k) == IF k = 6 THEN 3 ELSE 2
 Emit == m.phase = "done" /\ m.status \in {"done", "exc"} =>
           PrintT(ToJson([sc |-> sc, prog |-> SubSeq(m.prog, 1, NProg(sc[2])), q |-> m.q, qv |-> m.qv, ans |-> m.ans, status |-> m.status,
-                         ball |-> m.ball, out |-> m.out, steps |-> m.steps]))
+                         ball |-> m.ball, out |-> m.out, diffrz |-> m.diffrz, steps |-> m.steps]))
 =============================================================================
